@@ -1,0 +1,30 @@
+//go:build verif
+
+package engine
+
+import "github.com/openGemini/openGemini/engine/index/tsi"
+
+// Second part of the C13 facade (verif_export_c13.go): the part structure of the two index
+// tables of a VerifDropShard and merges of chosen parts of the primary index table.
+
+// IndexParts lists the parts of the primary index table.
+func (v *VerifDropShard) IndexParts() ([]tsi.VerifIndexPart, error) { return v.prim.VerifIndexParts() }
+
+// DeletedParts lists the parts of the deleted-tsid table.
+func (v *VerifDropShard) DeletedParts() ([]tsi.VerifIndexPart, error) { return v.del.VerifIndexParts() }
+
+// MergeIndexParts merges the parts at the given positions of the primary index table.
+func (v *VerifDropShard) MergeIndexParts(positions []int) (int, error) {
+	return v.prim.VerifMergeParts(positions)
+}
+
+// BeginIndexMerge marks the parts at the given positions as being merged, as a background
+// merger does when it has chosen them; finish runs the merge.
+func (v *VerifDropShard) BeginIndexMerge(positions []int) (n int, finish func() error) {
+	return v.prim.VerifBeginMerge(positions)
+}
+
+// MergeDeletedParts merges parts of the deleted-tsid table.
+func (v *VerifDropShard) MergeDeletedParts(positions []int) (int, error) {
+	return v.del.VerifMergeParts(positions)
+}
